@@ -168,16 +168,16 @@ def _generate_enums(fcp: FcpV2, service_methods_enum: Tuple[str, int]) -> FcpV2:
 
 def generate_rpc(fcp: FcpV2) -> FcpV2:
     """Generate rpc types."""
-    method_data: Dict[str, Tuple[Struct, Impl]] = {}
+    method_data: Dict[Tuple[str, str], Tuple[Struct, Impl]] = {}
     service_methods_enum: Dict[str, Tuple[str, int]] = {}
 
     for service in fcp.services:
         service_methods_enum[service.name] = []
         for method in service.methods:
-            method_data[method.input] = _rpc_input_data(
+            method_data[(method.input, "input")] = _rpc_input_data(
                 service, fcp.get_struct(method.input).unwrap()
             )
-            method_data[method.output] = _rpc_output_data(
+            method_data[(method.output, "output")] = _rpc_output_data(
                 service, fcp.get_struct(method.output).unwrap()
             )
             service_methods_enum[service.name].append((method.name, method.id))
